@@ -147,6 +147,23 @@ def run(chk):
                       {"header": b[0], "payload": b[1], "seq": b[2], "detail": [str(x) for x in b[3:]]},
                       key="frame:len%d" % (len(b[1]) // 2 if b[1] != "-" else 0))
 
+    # ---------------- the frame of the SAME command object, built again for every transmission (as api.request does) and
+    # stamped in different numbering states: each time exactly first|last|current number, valid checksum
+    import zigpy_zboss.commands as _c
+    rbad = None
+    for cmd in (_c.NcpConfig.GetModuleVersion.Req(TSN=9), _c.ZDO.PermitJoin.Req(TSN=3, DestNWK=t.NWK(0x1234), PermitDuration=t.uint8_t(60), TCSignificance=t.uint8_t(1))
+                if hasattr(_c.ZDO, "PermitJoin") else _c.NcpConfig.GetZigbeeRole.Req(TSN=3)):
+        for sq in (1, 2, 3, 1, 2, 0, 3):
+            st = stamp_all([cmd.to_frame()], sq)[0]
+            o = model.batch(["specdec %s" % hexs(st)])[0]
+            chk.note_case(("same-object", type(cmd).__qualname__, sq))
+            if o == "NONE" or int(o[2:].split(",")[1]) != (0xC0 | (sq << 2)):
+                rbad = rbad or (type(cmd).__qualname__, sq, hexs(st), o)
+    chk.oblige("monitor:same-command-object-rebuilt-and-stamped-per-transmission", rbad is None, repr(rbad) if rbad else "")
+    if rbad:
+        chk.violation("the frame of a %s object sent again in numbering state %d is %s (%s): flags must be first|last|%d"
+                      % (rbad[0], rbad[1], rbad[2], rbad[3], rbad[1]), {"case": rbad}, key="same-object-frame")
+
     # ---------------- fragments the host constructs: stamped as send() does, decoded by the independent decoder
     from props import c09
     fbad = None
